@@ -34,7 +34,11 @@ ASSUMPTIONS = [
 
 def gen_case(rng: random.Random, tier: str) -> dict:
     g = gen.gen_program(rng, feats={**gen.gen_feats(rng), "gens": rng.random() < 0.3}, max_nodes=9 if tier == "thorough" else 7, depth=3 if (tier == "thorough" and rng.random() < 0.3) else 2)
+    if rng.random() < 0.12:
+        g = gen.gen_sibling_wrappers(rng)  # one sub-graph template mounted several times side by side, outputs renamed per wrapper
     inp = gen.program_inputs(rng, g)
+    if g.get("siblings_program"):
+        inp["omit"] = []
     fns = gen.fn_nodes(g)
     faults = []
     if fns and rng.random() < 0.35:
